@@ -271,3 +271,9 @@ BUDGET = {
     "quick": {"format": 1500, "rv-tables": 300, "toy-tables": 300, "tables-history": 300},
     "thorough": {"format": ("exhaustive", 20000), "rv-tables": 5000, "toy-tables": 5000, "tables-history": 8000},
 }
+
+
+EXTRA_TRUST = globals().get("EXTRA_TRUST", []) + [
+    "T2 (this property): the theorems of Props/C17FloatCeil.v (math.ceil(n / g) = exact integer ceiling) depend on the standard-library "
+    "axioms ClassicalDedekindReals.sig_forall_dec, ClassicalDedekindReals.sig_not_dec, FunctionalExtensionality."
+    "functional_extensionality_dep and Classical_Prop.classic (real numbers; Flocq's `round`); all other theorems are closed"]
